@@ -6,9 +6,48 @@
 #include <boost/archive/polymorphic_text_oarchive.hpp>
 #include <boost/archive/polymorphic_binary_iarchive.hpp>
 #include <boost/archive/polymorphic_binary_oarchive.hpp>
+#include <shark/LinAlg/Base.h>
+#include <shark/Core/Shape.h>
 #include <sstream>
 #include <string>
+#include "common.hpp"
 namespace c18 {
+// ---- shared behaviour probes (integer-valued inputs, exact output rendering)
+inline long cell(std::size_t seed, std::size_t e, std::size_t j){ return long((seed * 7 + e * 3 + j * 5) % 11) - 5; }
+inline shark::RealMatrix points(std::size_t n, std::size_t dim, std::size_t seed){
+	shark::RealMatrix x(n, dim);
+	for(std::size_t i = 0; i != n; ++i) for(std::size_t j = 0; j != dim; ++j) x(i,j) = double(cell(seed, i, j));
+	return x;
+}
+inline shark::RealVector ramp(std::size_t n, double start, double step){
+	shark::RealVector v(n); for(std::size_t i = 0; i != n; ++i) v(i) = start + step * double(i); return v;
+}
+inline std::string shapeStr(shark::Shape const& s){
+	std::ostringstream os; os << "(";
+	for(std::size_t i = 0; i != s.size(); ++i){ if(i) os << ","; os << s[i]; }
+	os << ")"; return os.str();
+}
+template<class V> std::string vecStr(V const& v){
+	std::ostringstream os; os << "(";
+	for(std::size_t i = 0; i != v.size(); ++i){ if(i) os << ","; os << vh::exactDouble(v(i)); }
+	os << ")"; return os.str();
+}
+template<class M> std::string matStr(M const& m){
+	std::ostringstream os;
+	for(std::size_t i = 0; i != m.size1(); ++i){ os << "["; for(std::size_t j = 0; j != m.size2(); ++j){ if(j) os << ","; os << vh::exactDouble(m(i,j)); } os << "]"; }
+	return os.str();
+}
+template<class Model> std::string modelBehaviour(Model& m, std::size_t dim, std::size_t n = 4){
+	shark::RealMatrix x = points(n, dim, 3), y;
+	m.eval(x, y);
+	return "params=" + vecStr(m.parameterVector()) + " in=" + shapeStr(m.inputShape()) + " out=" + shapeStr(m.outputShape()) + " eval=" + matStr(y);
+}
+template<class K> std::string kernelBehaviour(K& k, std::size_t dim){
+	shark::RealMatrix x = points(3, dim, 1), y = points(2, dim, 5);
+	shark::RealMatrix g = k(x, y);
+	shark::RealVector a = row(x, 0), b = row(y, 1);
+	return "params=" + vecStr(k.parameterVector()) + " gram=" + matStr(g) + " single=" + vh::exactDouble(k.eval(a, b));
+}
 // write `orig` to a polymorphic text or binary archive, read the bytes into `fresh`
 template<class T>
 void roundTrip(T const& orig, T& fresh, bool binary){
@@ -21,6 +60,47 @@ void roundTrip(T const& orig, T& fresh, bool binary){
 		{ boost::archive::polymorphic_text_iarchive ia(ss); shark::InArchive& i = ia; i >> fresh; }
 	}
 }
+// archive bytes of an object / load bytes into an (arbitrarily used) object
+template<class T>
+std::string bytes(T const& orig, bool binary){
+	std::stringstream ss(std::ios::in | std::ios::out | std::ios::binary);
+	if(binary){ boost::archive::polymorphic_binary_oarchive oa(ss); shark::OutArchive& o = oa; o << orig; }
+	else{ boost::archive::polymorphic_text_oarchive oa(ss); shark::OutArchive& o = oa; o << orig; }
+	return ss.str();
+}
+template<class T>
+void load(std::string const& b, T& target, bool binary){
+	std::stringstream ss(b, std::ios::in | std::ios::out | std::ios::binary);
+	if(binary){ boost::archive::polymorphic_binary_iarchive ia(ss); shark::InArchive& i = ia; i >> target; }
+	else{ boost::archive::polymorphic_text_iarchive ia(ss); shark::InArchive& i = ia; i >> target; }
+}
+inline std::string differs(std::string const& label, std::string const& stage, std::string const& a, std::string const& b){
+	return "obj " + label + " differs " + stage + " original{" + a.substr(0, 300) + "} restored{" + b.substr(0, 300) + "} !oracle " + stage;
+}
+// HISTORY of one class: `a`, `a2` two different states of the same type, `b` a target that was constructed /
+// configured differently and used before. (1) write a, read into b: behaves like a; (2) write a2, read into the
+// same b: behaves like a2 (everything a left behind is overwritten); (3) read a's archive twice: like a;
+// (4) second generation: write b, read into the used a2: like a, and the archive of b is the archive of a byte
+// for byte; (5) writing did not change a.
+template<class T, class Beh>
+std::string history(std::string const& label, T& a, T& a2, T& b, Beh beh, bool binary, bool compareBytes = true){
+	std::string A = beh(a), A2 = beh(a2);
+	std::string bytesA = bytes(a, binary), bytesA2 = bytes(a2, binary);
+	load(bytesA, b, binary);
+	{ std::string B = beh(b); if(B != A) return differs(label, "behaviour-differs", A, B); }
+	load(bytesA2, b, binary);
+	{ std::string B = beh(b); if(B != A2) return differs(label, "stale-state-not-overwritten", A2, B); }
+	load(bytesA, b, binary); load(bytesA, b, binary);
+	{ std::string B = beh(b); if(B != A) return differs(label, "read-twice-differs", A, B); }
+	std::string bytesB = bytes(b, binary);
+	load(bytesB, a2, binary);
+	{ std::string B = beh(a2); if(B != A) return differs(label, "second-generation-differs", A, B); }
+	{ std::string B = beh(a); if(B != A) return differs(label, "original-changed-by-write", A, B); }
+	if(compareBytes && bytesB != bytesA) return differs(label, "rewritten-archive-differs", binary ? "(binary)" : bytesA, binary ? "(binary)" : bytesB);
+	return "obj " + label + " same";
+}
 std::string runOptimizer(std::string const& label, bool binary);
+std::string runModel(std::string const& label, bool binary);   // c18_models.cpp
+std::string runMoo(std::string const& label, bool binary);     // c18_moo.cpp
 }
 #endif
